@@ -1,7 +1,18 @@
-import cirq, tunits
-from cirq_google.api import v2
-s=cirq.Linspace('t', 1*tunits.ns, 10*tunits.us, 4)
-vals=[list(r.param_dict.values())[0] for r in s]
-print(vals, [v[tunits.ns] for v in vals])
-b=v2.sweep_from_proto(v2.sweep_to_proto(s)); print(b, [list(r.param_dict.values())[0] for r in b])
-v=vals[1]; print([m for m in dir(v) if not m.startswith('_')][:40])
+import warnings; warnings.simplefilter('ignore')
+import cirq, numpy as np, traceback, random
+q=cirq.LineQubit.range(3)
+from contracts import C15_numeric as N
+rng=random.Random(13+4)
+# regenerate exactly as the stand-in does is complex; instead scan many random u for the two orders
+bad=0
+for seed in range(400):
+    u=cirq.testing.random_unitary(2, random_state=seed)
+    for nm,U in (('u x SWAP', np.kron(u, cirq.unitary(cirq.SWAP))), ('u4 x I', np.kron(cirq.testing.random_unitary(4, random_state=seed), np.eye(2))), ('I x u4', np.kron(np.eye(2), cirq.testing.random_unitary(4, random_state=seed)))):
+        for order in (q, [q[2],q[0],q[1]]):
+            try:
+                ops=list(cirq.quantum_shannon_decomposition(order, U))
+            except Exception as e:
+                bad+=1
+                if bad<=2:
+                    print(nm, seed, order, repr(e)); traceback.print_exc(limit=-4)
+print('bad',bad)
